@@ -310,12 +310,18 @@ func readMergedReports(ctx context.Context, fileName string, s *storage.API) ([]
 
 	var reports []telemetry.Report
 	scanner := bufio.NewScanner(in)
+	// Each line is a whole report, which may be larger than the scanner's
+	// default token limit of 64 KiB.
+	scanner.Buffer(nil, 16<<20)
 	for scanner.Scan() {
 		var report telemetry.Report
 		if err := json.Unmarshal(scanner.Bytes(), &report); err != nil {
 			return nil, err
 		}
 		reports = append(reports, report)
+	}
+	if err := scanner.Err(); err != nil {
+		return nil, err
 	}
 
 	return reports, nil
